@@ -922,7 +922,6 @@ def _identity(x):
 @_formats('type-reference-tail -> type-word "." type-reference-tail')
 @_formats("field-reference -> snake-reference field-reference-tail*")
 @_formats('abbreviation -> "(" snake-word ")"')
-@_formats("additive-expression-right -> additive-operator times-expression")
 @_formats(
     "additive-expression-right* -> additive-expression-right"
     "                              additive-expression-right*"
@@ -1011,6 +1010,16 @@ def _identity(x):
 def _concatenate(*elements):
     """Concatenates all arguments with no delimiters."""
     return "".join(elements)
+
+
+@_formats("additive-expression-right -> additive-operator times-expression")
+def _additive_expression_right(operator, expression):
+    """Formats an additive operator and its right-hand operand."""
+    if operator == "-" and expression.startswith("-"):
+        # "--" would be tokenized as (bad) documentation, so `a - -b` must
+        # keep a space between the operator and the negated operand.
+        return operator + " " + expression
+    return operator + expression
 
 
 @_formats("equality-expression-right -> equality-operator additive-expression")
